@@ -19,7 +19,7 @@ ERR = re.compile(r"^\(err (\w+) (\d+):(\d+)\)")
 
 def explore(ctx):
     h = common.hexs
-    reps = 8 if ctx.quick else 120
+    reps = 30 if ctx.quick else 120
     cases = []
     dist = {}
     combos = [(kind, context, None, None) for rep in range(reps) for kind in gen.LOC_FAULTS for context in gen.LOC_CONTEXTS]
@@ -42,7 +42,7 @@ def explore(ctx):
                 dist[kind + "/" + context] = dist.get(kind + "/" + context, 0) + 1
     # syntax errors that carry a location: at or before the offending token
     syn = []
-    for k in range(120 if ctx.quick else 1500):
+    for k in range(500 if ctx.quick else 1500):
         g = gen.Gen(ctx.rng, ticks=False)
         forms, _ = g.program(ctx.rng.randint(1, 4), 2)
         bad = ctx.rng.choice([")", "#z", "\"unterminated", "(a . b . c)", "#\\", "1/0", "(define 5 1)"])
@@ -103,7 +103,8 @@ def explore(ctx):
         "rule": "8 fault kinds x 6 contexts (direct, nested in data construction, in an immediately called lambda, under apply, in "
                 "a lambda handed to map/for-each/fold-left, inside a derived form) x %d seeds, the fault written in the failing "
                 "top-level form itself, preceded by 0-5 valid forms, everything laid out with random line breaks, indentation, "
-                "tabs and comments, the extent of every form recorded by the renderer; whole-text evaluation through the library "
+                "tabs and comments, identifiers that begin with a sign or a dot (->n -neg +pos ...) and signed / rational / real literals on the "
+                "line of the fault, the extent of every form recorded by the renderer; whole-text evaluation through the library "
                 "interface and through the built binary: the location must lie in the extent of the failing form, must be the "
                 "cursor position after the offending identifier / operator for unbound variables and non-procedures, and model, "
                 "library and binary must agree; plus syntax errors (location at or before the end of the offending token). "
